@@ -375,3 +375,6 @@ func m_bytes_TrimRight(s []byte, cutset string) []byte {
 	}
 	return s
 }
+
+// reflect.DeepEqual on the value shapes the library handles (maps, lists, scalars)
+func m_reflect_DeepEqual(a, b interface{}) bool { return vDeepEq(a, b) }
